@@ -3760,10 +3760,24 @@ impl Scenario for StatsRt {
             parts.extend(f.args());
             label.push_str(" filter");
         }
+        // 1 in 5: expectations about the whole run that do not hold (custom checks file, the same for both runs):
+        // their messages and codes are part of the statistics that must round-trip
+        let custom = if rng.chance(1, 5) {
+            parts.extend(s(&["-c", "@CHECKS@"]));
+            label.push_str(" run-expectations-fail");
+            Some(match rng.below(3) {
+                0 => "cdps = 100000\n".to_string(),
+                1 => "triggers_pht = 100000\n".to_string(),
+                _ => "cdps = 100000\ntriggers_pht = 100000\n".to_string(),
+            })
+        } else {
+            None
+        };
         let im = pick_input_mode(&mut rng);
         let mut pa = parts.clone();
         pa.extend(s(&["-S", "@STATS@", "-D", ext]));
         let mut a = specgen::spec(im.clone(), &pa, st.bytes());
+        a.custom_checks_toml = custom.clone();
         a.stats_ext = ext.to_string();
         if rng.chance(1, 4) {
             // the statistics file of an earlier run is still there: it must be replaced
@@ -3772,6 +3786,7 @@ impl Scenario for StatsRt {
         let mut pb = parts.clone();
         pb.extend(s(&["-i", "@INSTATS@"]));
         let mut b = specgen::spec(im, &pb, st.bytes());
+        b.custom_checks_toml = custom;
         b.stats_ext = ext.to_string();
         let est = 300 + st.total_packets() as u64 * 12;
         swarm_schedule(&mut a, &mut rng, est);
